@@ -425,3 +425,67 @@ func sameNode(a, b datamodel.Node) (same bool) {
 	}()
 	return a == b
 }
+
+// Nodes built one after another over ONE scratch buffer that the caller refills between them (each node is done with
+// before the next is built): reification goes by what the node holds now, never by where its bytes live.
+func TestC14_R_ScratchBufferNodes(t *testing.T) {
+	enc := func(typ uint64, payload string) []byte {
+		return (&ufsFields{Type: typ, HasData: true, Data: []byte(payload)}).encode()
+	}
+	hamt := (&ufsFields{Type: 5, HasData: true, Data: []byte{0}, HashType: u64p(0x22), Fanout: u64p(8)}).encode()
+	msgs := []struct {
+		name string
+		raw  []byte
+		kind datamodel.Kind
+	}{
+		{"file", enc(2, "hello"), datamodel.Kind_Bytes},
+		{"symlink", enc(4, "world"), datamodel.Kind_Map},
+		{"raw", enc(0, "bytes"), datamodel.Kind_Bytes},
+		{"directory", enc(1, "xxxxx"), datamodel.Kind_Map},
+		{"metadata", enc(3, "mmmmm"), datamodel.Kind_Map},
+		{"shard", hamt, datamodel.Kind_Map},
+		{"garbage", []byte{0xff, 0xff, 0xff, 0xff, 0xff, 0xff, 0xff, 0xff, 0xff}, datamodel.Kind_Map},
+	}
+	st := NewStore()
+	ls := st.LinkSystem()
+	scratch := make([]byte, 64)
+	for _, reifier := range []string{"Reify", "unixfs", "unixfs-preload"} {
+		for i := range msgs {
+			for j := range msgs {
+				if i == j {
+					continue
+				}
+				var lastKind datamodel.Kind
+				for step, m := range []int{i, j, i} {
+					n := copy(scratch, msgs[m].raw)
+					pn, err := qp.BuildMap(dagpb.Type.PBNode, -1, func(ma datamodel.MapAssembler) {
+						qp.MapEntry(ma, "Links", qp.List(0, func(datamodel.ListAssembler) {}))
+						qp.MapEntry(ma, "Data", qp.Bytes(scratch[:n]))
+					})
+					if err != nil {
+						t.Fatal(err)
+					}
+					var rn datamodel.Node
+					if reifier == "Reify" {
+						rn, err = unixfsnode.Reify(ipld.LinkContext{}, pn, ls)
+					} else {
+						rn, err = ls.KnownReifiers[reifier](ipld.LinkContext{}, pn, ls)
+					}
+					if err != nil {
+						t.Fatalf("C14 scratch: %s via %s: %v", msgs[m].name, reifier, err)
+					}
+					if rn.Kind() != msgs[m].kind {
+						t.Fatalf("C14: a %s node built over a scratch buffer that held a %s node before (step %d) reified via %s as kind %s, want %s", msgs[m].name, msgs[[]int{i, j, i}[max(step-1, 0)]].name, step, reifier, rn.Kind(), msgs[m].kind)
+					}
+					if msgs[m].kind == datamodel.Kind_Bytes {
+						if b, err := rn.AsBytes(); err != nil || string(b) != string(msgs[m].raw[len(msgs[m].raw)-5:]) {
+							t.Fatalf("C14: %s node over a reused scratch buffer reads %q (err %v)", msgs[m].name, b, err)
+						}
+					}
+					lastKind = rn.Kind()
+				}
+				_ = lastKind
+			}
+		}
+	}
+}
